@@ -13,7 +13,7 @@ use std::collections::HashSet;
 pub enum TNode {
     Tok { kind: usize, l: usize, r: usize },
     Nt { reduce: usize, children: Vec<TNode>, l: usize, r: usize },
-    Error { l: usize, r: usize, dropped: Vec<(usize, usize, usize)>, on_token: Option<(usize, usize, usize)> },
+    Error { l: usize, r: usize, dropped: Vec<(usize, usize, usize)>, on_token: Option<(usize, usize, usize)>, expected: Vec<String> },
 }
 
 impl TNode {
@@ -47,6 +47,10 @@ pub struct Stats {
     /// distinct (stack hash) configurations seen; filled when `track_states`
     pub configs: RefCell<HashSet<u64>>,
     pub track: bool,
+    /// expected-token simulation (`accepts`): most reductions simulated in one call, and whether
+    /// some call reduced twice in the same state (both since the last reset)
+    pub acc_reduces: Cell<u64>,
+    pub acc_repeat: Cell<bool>,
 }
 
 pub struct Def<'a> {
@@ -77,6 +81,7 @@ impl<'a> Def<'a> {
     /// mirror of the generated `__accepts(None, states, opt_integer)`
     fn accepts(&self, states: &[i32], opt: Option<usize>) -> bool {
         let mut states = states.to_vec();
+        let mut reduced_in: Vec<i32> = vec![];
         loop {
             let mut len = states.len();
             let top = states[len - 1];
@@ -93,6 +98,11 @@ impl<'a> Def<'a> {
             match &self.t.reduces[(-(action + 1)) as usize] {
                 Reduce::Accept => return true,
                 Reduce::Reduce { pop, nt } => {
+                    if reduced_in.contains(&top) {
+                        self.stats.acc_repeat.set(true);
+                    }
+                    reduced_in.push(top);
+                    self.stats.acc_reduces.set(self.stats.acc_reduces.get().max(reduced_in.len() as u64));
                     len -= pop;
                     states.truncate(len);
                     let top = states[len - 1];
@@ -151,11 +161,12 @@ impl<'a> ParserDefinition for Def<'a> {
         self.t.uses_error_recovery
     }
     fn error_recovery_symbol(&self, recovery: ErrorRecovery<Self>) -> TNode {
-        let on_token = match &recovery.error {
-            ParseError::UnrecognizedToken { token, .. } => Some((token.0, token.1, token.2)),
-            _ => None,
+        let (on_token, expected) = match &recovery.error {
+            ParseError::UnrecognizedToken { token, expected } => (Some((token.0, token.1, token.2)), expected.clone()),
+            ParseError::UnrecognizedEof { expected, .. } => (None, expected.clone()),
+            _ => (None, vec![]),
         };
-        TNode::Error { l: 0, r: 0, dropped: recovery.dropped_tokens.iter().map(|(l, t, r)| (*l, *t, *r)).collect(), on_token }
+        TNode::Error { l: 0, r: 0, dropped: recovery.dropped_tokens.iter().map(|(l, t, r)| (*l, *t, *r)).collect(), on_token, expected }
     }
     fn reduce(&mut self, action: i32, start_location: Option<&usize>, states: &mut Vec<i32>, symbols: &mut Vec<SymbolTriple<Self>>) -> Option<ParseResult<Self>> {
         self.stats.steps.set(self.stats.steps.get() + 1);
@@ -170,7 +181,7 @@ impl<'a> ParserDefinition for Def<'a> {
         let fix = |(l, s, r): SymbolTriple<Self>| -> TNode {
             match s {
                 TNode::Tok { kind, .. } => TNode::Tok { kind, l, r },
-                TNode::Error { dropped, on_token, .. } => TNode::Error { l, r, dropped, on_token },
+                TNode::Error { dropped, on_token, expected, .. } => TNode::Error { l, r, dropped, on_token, expected },
                 n => n,
             }
         };
@@ -250,7 +261,7 @@ pub fn run_tokens(t: &Tables, tok_idx: &[Option<usize>], tokens: &[(usize, usize
 }
 
 pub fn new_stats(track: bool) -> Stats {
-    Stats { steps: Cell::new(0), reduces: Cell::new(0), configs: RefCell::new(HashSet::new()), track }
+    Stats { steps: Cell::new(0), reduces: Cell::new(0), configs: RefCell::new(HashSet::new()), track, acc_reduces: Cell::new(0), acc_repeat: Cell::new(false) }
 }
 
 /// token span convention of DESIGN §4: token i has span (10 i + 3, 10 i + 7)
